@@ -90,3 +90,4 @@ CHECK = dict(
     budget_s={"quick": 100, "thorough": 1500},
     mem_kb=14 * 1024 * 1024,
 )
+CHECK["claim"] += ' Fifth session, quick tier: n=7 (f=2) with the default timer and the attester duty under every leader rotation (main family); with two faulty members the second one also stops during its FIRST broadcast; partial broadcasts reach nobody / the first half / all but one / only the last / only the first of the others.'
